@@ -133,6 +133,32 @@ PROPS = {
         technique="Lean 4 proof (inductive invariant over all schedules, backwards-propagating ghost flag for the excluded window) + controlled-interleaving exploration",
         trusted=CONC_TRUST,
     ),
+    "C09": dict(
+        modules=[P + "C09"],
+        theorems=[P + "C09." + t for t in ("step_inv", "reachable_inv", "always_loadable", "table_image_decodes", "empty_image_loads", "acked_consistent_partial",
+                                          "file_matches_bookkeeping", "crash_in_truncate_window", "crash_overcapacity_file")]
+                 + ["Ldlm.Pins.pin_StoreWrite"],
+        status={P + "C09.acked_consistent_partial": "partial (hypothesis: the kill is not between Truncate(0) and Write)",
+                P + "C09.crash_in_truncate_window": "refutation witness (K3)", P + "C09.crash_overcapacity_file": "refutation witness (K4)"},
+        streams=[CONC, SEQ],
+        level_text="M7 has one step per file operation of store.Write (pinned to its source text) and per manager call of the server threads; a crash point is ANY reachable state of ANY schedule. Proved: at every crash point the file is a complete table encoding or empty, both of which load (C17 round trip; empty = no state); outside the Truncate/Write window every hold whose grant was answered and which has not left the table is in the file and no hold whose release was answered is; outside a rewrite the file is exactly the bookkeeping. The unrestricted statement is false of the code: K3 (kill between Truncate(0) and Write: empty file, acknowledged holds lost) and K4 (unit released before the bookkeeping entry is removed + re-grant: file lists two holds of a size-1 lock) - kernel-checked witnesses. Tied to the code by crash-image snapshots at every yield point of explored schedules (each distinct image is decoded and checked against the acknowledged sets at that instant) and by sequential histories with restarts where the file must load and equal the acknowledged holds after every operation.",
+        level_note="PARTIAL by K3/K4 (recorded: an atomic-replace rewrite / reordering table and bookkeeping are not minimal repairs). Process-kill model: page cache survives, no power loss / fsync ordering. 'Recovery never has to drop an acknowledged hold' follows outside K4 from C01's restore-by-TryLock. Trusted: Lean kernel, hand-written M7, os.File semantics (modelled), the snapshot hook reading the file at yield points.",
+        technique="Lean 4 proof (inductive invariant over all schedules of file operations and manager calls) + crash-image enumeration on the instrumented code + restart histories",
+        trusted=CONC_TRUST + M2_TRUST,
+    ),
+    "C10": dict(
+        modules=[P + "C10"],
+        theorems=[P + "C10." + t for t in ("restored_occupy_capacity", "restored_has_default_lease", "only_default_leases", "restored_not_early", "restored_expires_exactly",
+                                          "restored_unlock_any_session", "restored_renew_succeeds", "restored_unlock_succeeds", "restored_only_from_file",
+                                          "ended_stays_ended", "startup_total", "restore_loop_pinned")]
+                 + ["Ldlm.Core.run_su", "Ldlm.Core.restart_keysFromFile", "Ldlm.Core.restart_keysLeased", "Ldlm.Core.restart_timersDefault"],
+        status={P + "C10.restored_not_early": "uses hypothesis hr (restart preserves the reachability invariant)"},
+        streams=[SEQ],
+        level_text="M2's restart is server.New on the file the previous run left: a fold of TryLock / RemoveLock / default-lease Add over an ARBITRARY table (call list and timeout expression regenerated from the source and pinned). Proved for every pre-restart state, configuration and file content: every hold in the table after a restart comes from the loaded file, has a lease timer with deadline restart time + DefaultLockTimeout and there is no other timer; capacity holds after any history with any number of restarts (C01), so an over-full file restores at most size holds; Unlock ignores the calling session, Renew has none, and both succeed with the original key; no default lease survives restart time + DefaultLockTimeout and (under hr) the hold is still there at every earlier instant; a hold absent from the table before a restart is absent after it (via booked=>held and file=bookkeeping); session ids are unique in bookkeeping and file for every history including restarts (run_su, no hypothesis); restart is total. Tied to the code by seq histories with many restarts (default lease time varied, time steps to deadline-1ns/deadline/deadline+1ns, unlock/renew from other sessions, competing grants), differential against the model plus a model-independent monitor: ended holds never return, every file entry is restored, restored holds have timers, server.New never fails or panics.",
+        level_note="restored_not_early relies on hr (restart preserves Inv'), not yet proved; everything else is hypothesis-free or per-state. D? (nil dereference in server.New's log call on a failed restore) was found by this check on the original tree and repaired (fix: commit 20311a8). Trusted: Lean kernel, hand-written M2, the differential tie, virtual time (testing/synctest).",
+        technique="Lean 4 proof (fold induction over an arbitrary state file; inductive invariants) + sequential differential correspondence with restarts + restart monitor",
+        trusted=M2_TRUST,
+    ),
     "C07": dict(
         modules=[P + "C07"],
         theorems=[P + "C07." + t for t in ("failed_inert", "timerKey_injective", "unlock_frame_locks", "renew_frame", "waitTimeout_frame")]
